@@ -28,6 +28,7 @@ try:
     for pr in a.props:
         r = subprocess.run([os.path.join(VERIF, "check"), pr, "--tier", a.tier], env=env, stdout=subprocess.PIPE, stderr=subprocess.STDOUT, text=True)
         lines = [l for l in r.stdout.split("\n") if l.startswith(("VIOLATION", "KNOWN", "INFRA"))]
+        lines.sort(key=lambda l: not l.startswith("VIOLATION"))      # (stable: violations first, then known findings)
         print("%s rc=%d %s" % (pr, r.returncode, " | ".join(lines[:3])))
 finally:
     shutil.rmtree(d, ignore_errors=True)
